@@ -215,6 +215,11 @@ fn run_one(cfg: &Value, out: &mut impl Write) -> usize {
         g.add(Box::new(w));
     }
     verif::trace_start();
+    if cfg["cancel"][0].as_i64() == Some(-1) {
+        // cancelled before run() is even called
+        tok.cancel();
+        verif::emit("\"ev\":\"cancel\",\"b\":0,\"k\":0".to_string());
+    }
     let res = catch(|| g.run());
     let evs = verif::trace_take();
     let got: Vec<Option<u64>> = hook.data().samples().iter().map(|s| s.val()).collect();
